@@ -89,7 +89,7 @@ def deep_scene(draw, kindA, kindB, rot_classes=None, margin=False,
         sb = dict(sb, R=np.array(sa["R"]).dot(P).tolist())
     A = ref(sa)
     B = ref(sb)
-    u3 = st.tuples(*[st.floats(-1, 1, allow_nan=False, width=64)] * 3)
+    u3 = st.tuples(*[atoms.coord(-1, 1)] * 3)
     if mode in ("centre", "identical"):
         fa = fb = 0.0
     else:
